@@ -86,6 +86,7 @@ def run(ctx):
     cycles = 3 if q else 6
     sources = [(n, d, False) for n, d in fmt.fixtures()]
     cl = gen.classes()
+    sources.append(("large", gen.large_project(rnd, spec).read(), False))        # scale
     for k in range(6 if q else 60):         # consecutive Samplers that use different slots (what one holds must not show up in the other)
         sources.append(("Sampler-seq%d" % k, api.Synth(gen.rand_module(rnd, cl["Sampler"], spec, depth=0, in_project=False)).read(), False))
     for i in range(30 if q else 600):
